@@ -22,7 +22,7 @@ RULE = (
 ASSUMPTIONS = [
     "hardware semantics (H2): for a stripe with n OFM rows the NPU reads E = (n-1)*stride + dilated_kernel - pad_top - pad_bottom rows starting at the IFM "
     "address it is given, treating pad_top rows above and pad_bottom rows below as zero points",
-    "the IFM box end computed by Vela may cover more rows than the hardware reads (it only feeds cascade dependencies); it must never cover fewer",
+    "the IFM box computed by Vela must be exactly the rows the hardware reads: fewer breaks the addresses, more makes cascaded producers run ahead of unread rolling-buffer rows",
     "read/write offsets and up-scaling are decided on compiled networks (part B), where the shapes Vela passes are unambiguous",
 ]
 
@@ -113,6 +113,9 @@ def check_geometry(case, rec=None):
                 where, pb, a, a + E, r1, H, max(0, r1 - H)), case)
         if b < a + E or b > H:
             raise Violation("C10/stripe/box", "%s: IFM box rows [%d,%d) do not cover the rows the hardware reads [%d,%d) inside the %d-row input" % (where, a, b, a, a + E, H), case)
+        if b > max(a + E, a + 1):
+            # the box end is what a cascaded consumer waits for: rows beyond the last one read make the producer run ahead and overwrite unread rows of the rolling buffer
+            raise Violation("C10/stripe/box-exceeds-read", "%s: IFM box rows [%d,%d) extend beyond the rows the hardware reads [%d,%d)" % (where, a, b, a, a + E), case)
         if (pl, pr) != (P_left, P_right):
             raise Violation("C10/stripe/left-right", "%s: left/right pads (%d,%d) differ from the operator's (%d,%d) although the stripe spans the full width" % (
                 where, pl, pr, P_left, P_right), case)
